@@ -115,6 +115,13 @@ def ops_lines(d):
 
 
 def case_line(c):
+    if c['k'] == 'X':
+        return 'X %d %s %s %d %d %d %s %s %s' % (c['d'], c['tl'], c['tr'], c['dl'], c['dr'], len(c['g']), ' '.join(c['g']),
+                                               ' '.join(map(str, c['a'])), ' '.join(map(str, c['b'])))
+    if c['k'] == 'H':
+        return 'H %s %s %s %s %s %d %s %d %s %d %s' % (c['shape'], c['mt'], c['vt'], c['first'], c['second'], len(c['pos']),
+                                                     ' '.join(str(x) for p in c['pos'] for x in p), len(c['moves']),
+                                                     ' '.join(str(x) for m in c['moves'] for x in m), len(c['addface']), ' '.join(map(str, c['addface'])))
     if c['k'] == 'G':
         return 'G %s %s %s %d %s' % (c['shape'], c['mt'], c['vt'], len(c['pos']), ' '.join(str(x) for p in c['pos'] for x in p))
     s = 'C %s %d %d %d %d %d %s %d %s %s %s' % (c['k'], c['d'], c['den'], c['s'], c['sep'], len(c['g']), ' '.join(c['g']),
@@ -124,10 +131,10 @@ def case_line(c):
     return s
 
 
-def vec_cfg(D, A, B, S, dens, kinds, mat='Mat11', stride=1, seed=0, a1=None, divs='Div255', jitters=0):
+def vec_cfg(D, A, B, S, dens, kinds, mat='Mat11', stride=1, seed=0, a1=None, divs='Div255', jitters=0, xc='XC3', xcu='XC3U', xdens=(2, 4), hist=0):
     return ('SPECIFICATION Spec\nCONSTANTS\n  D = %d\n  CompsA <- %s\n  CompsB <- %s\n  Scalars <- %s\n  Dens = %s\n  GenKinds = %s\n'
-            '  MatEntries <- %s\n  Stride = %d\n  Seed = %d\n  FirstA <- %s\n  SweepDivisors <- %s\n  Jitters = %d\nINVARIANT LawsHold\nINVARIANT EmitCase\nCHECK_DEADLOCK FALSE\n'
-            % (D, A, B, S, vlib.tla_set(dens), vlib.tla_set(kinds), mat, stride, seed, a1 or A, divs, jitters))
+            '  MatEntries <- %s\n  Stride = %d\n  Seed = %d\n  FirstA <- %s\n  SweepDivisors <- %s\n  Jitters = %d\n  XComps <- %s\n  XCompsU <- %s\n  XDens = %s\n  Histories = %d\nINVARIANT LawsHold\nINVARIANT EmitCase\nCHECK_DEADLOCK FALSE\n'
+            % (D, A, B, S, vlib.tla_set(dens), vlib.tla_set(kinds), mat, stride, seed, a1 or A, divs, jitters, xc, xcu, vlib.tla_set(list(xdens)), hist))
 
 
 def c19_configs(tier, seed):
@@ -145,6 +152,10 @@ def c19_configs(tier, seed):
         add('d4', D=4, A='LatB4', B='LatB2', S='Lat22', dens=[1], kinds=['B'])
         add('geo', D=3, A='Lat22', B='Lat22', S='Lat22', dens=[1], kinds=['G'], mat='Mat11', stride=200, seed=seed, jitters=12)
         add('sweep', D=4, A='Lat22', B='Lat22', S='Lat22', dens=[1], kinds=['W'], divs='DivOdd')
+        add('x2', D=2, A='Lat22', B='Lat22', S='Lat22', dens=[1], kinds=['X'], xc='XC3', xcu='XC3U', xdens=(1, 2, 4))
+        add('x3', D=3, A='Lat22', B='Lat22', S='Lat22', dens=[1], kinds=['X'], xc='XC3', xcu='XC3U', xdens=(2, 4))
+        add('x4', D=4, A='Lat22', B='Lat22', S='Lat22', dens=[1], kinds=['X'], xc='XC2', xcu='XC2U', xdens=(4,))
+        add('hist', D=3, A='Lat22', B='Lat22', S='Lat22', dens=[1], kinds=['H'], hist=1, seed=seed)
     else:
         for x in ('m2', 'm1', 'z0', 'p1', 'p2'):
             add('d3' + x, D=3, A='Lat22', B='Lat22', S='Lat22', dens=[1, 2], kinds=['B'], a1='One_' + x)
@@ -154,6 +165,10 @@ def c19_configs(tier, seed):
         add('d4h', D=4, A='Lat22', B='LatB2', S='Lat22', dens=[2], kinds=['B'])
         add('geo', D=3, A='Lat22', B='Lat22', S='Lat22', dens=[1], kinds=['G'], mat='Mat11', stride=12, seed=seed, jitters=150)
         add('sweep', D=4, A='Lat22', B='Lat22', S='Lat22', dens=[1], kinds=['W'], divs='Div255')
+        add('x2', D=2, A='Lat22', B='Lat22', S='Lat22', dens=[1], kinds=['X'], xc='Lat22', xcu='Lat04', xdens=(1, 2, 4))
+        add('x3', D=3, A='Lat22', B='Lat22', S='Lat22', dens=[1], kinds=['X'], xc='XC4', xcu='XC4U', xdens=(2, 4))
+        add('x4', D=4, A='Lat22', B='Lat22', S='Lat22', dens=[1], kinds=['X'], xc='XC3', xcu='XC3U', xdens=(4,))
+        add('hist', D=3, A='Lat22', B='Lat22', S='Lat22', dens=[1], kinds=['H'], hist=8, seed=seed)
         add('geo2', D=3, A='Lat22', B='Lat22', S='Lat22', dens=[1], kinds=['G'], mat='Mat12', stride=400, seed=seed)
     return cf
 
